@@ -23,21 +23,24 @@ PrintCQC == \A S \in SUBSET Validators, gk \in GKinds, len \in Lens, sk \in SigK
 
 (* ---- timeout certificates: signer subset split in two groups (different reports) x corruption ---- *)
 TCorr == {"none", "overlap", "emptygroup", "viewmismatch", "viewearlier", "len_short", "len_long", "genesis", "sig_other_signer", "sig_dropped",
-          "nested_subquorum", "nested_badsig", "nested_genesis", "hv_genesis"}
+          "nested_subquorum", "nested_badsig", "nested_genesis", "hv_genesis", "epoch", "nested_epoch", "hv_epoch"}
+(* chain binding (the flag g) = genesis AND epoch: "genesis" / "epoch" corruptions differ only in how the harness breaks the binding;    *)
+(* a nested certificate of ANOTHER EPOCH is fully signed for that epoch - it is invalid here only because of the binding.                *)
+ChainBad == {"genesis", "epoch"}
 NestedQC(kind) ==
-    [vote |-> Vprev, g |-> kind # "nested_genesis",
+    [vote |-> Vprev, g |-> kind \notin {"nested_genesis", "nested_epoch"},
      signers |-> IF kind = "nested_subquorum" THEN {CHOOSE x \in Validators : TRUE} ELSE Validators,
      len |-> N, sig |-> kind # "nested_badsig"]
 TQCCase(S, G2, corr) ==      \* G2 \subseteq S : signers of the second group (report with high vote + nested certificate)
     LET G1 == S \ G2
-        m1 == [view |-> 3, g |-> corr # "genesis", hv |-> NoVote, hvg |-> TRUE, hq |-> NoCQC]
-        m2 == [view |-> IF corr = "viewmismatch" THEN 4 ELSE IF corr = "viewearlier" THEN 2 ELSE 3, g |-> corr # "genesis", hv |-> V1, hvg |-> corr # "hv_genesis", hq |-> NestedQC(corr)]
+        m1 == [view |-> 3, g |-> corr \notin ChainBad, hv |-> NoVote, hvg |-> TRUE, hq |-> NoCQC]
+        m2 == [view |-> IF corr = "viewmismatch" THEN 4 ELSE IF corr = "viewearlier" THEN 2 ELSE 3, g |-> corr \notin ChainBad, hv |-> V1, hvg |-> corr \notin {"hv_genesis", "hv_epoch"}, hq |-> NestedQC(corr)]
         g1 == [msg |-> m1, signers |-> G1, len |-> IF corr = "len_short" THEN N - 1 ELSE IF corr = "len_long" THEN N + 1 ELSE N]
         g2 == [msg |-> m2, signers |-> IF corr = "overlap" /\ G1 # {} THEN G2 \cup {CHOOSE x \in G1 : TRUE} ELSE G2, len |-> N]
         g3 == [msg |-> [m1 EXCEPT !.hv = Vprev], signers |-> {}, len |-> N]
         groups == (IF G1 # {} \/ corr \in {"len_short", "len_long"} THEN <<g1>> ELSE <<>>) \o (IF G2 # {} THEN <<g2>> ELSE <<>>)
                   \o (IF corr = "emptygroup" THEN <<g3>> ELSE <<>>)
-        t == [view |-> 3, g |-> corr # "genesis", groups |-> groups,
+        t == [view |-> 3, g |-> corr \notin ChainBad, groups |-> groups,
               sig |-> ~(corr \in {"sig_other_signer", "sig_dropped"} /\ S # {})]
     IN [kind |-> "tqc", signers |-> S, g2 |-> G2, corr |-> corr, ngroups |-> Len(groups),
         overlap |-> corr = "overlap" /\ G1 # {} /\ G2 # {},
